@@ -8,6 +8,7 @@ import (
 	"io"
 	"net"
 	"sync"
+	"sync/atomic"
 	"time"
 	"unicode/utf8"
 
@@ -684,6 +685,32 @@ func discardBlock(ctx context.Context, header *wire.MessageHeader, r io.Reader,
 	}
 }
 
+// blockReadCloser is the reader a block is streamed through, so that a block request can be cancelled
+// while the block is being read. Close only sets a flag and never waits for a read in progress.
+// threads.ReadCloser holds its lock while it reads, so closing it while the peer has stopped sending
+// blocks the caller, which holds the node lock, until the peer sends more data or the connection ends.
+type blockReadCloser struct {
+	reader   io.Reader
+	isClosed int32
+}
+
+func newBlockReadCloser(r io.Reader) *blockReadCloser {
+	return &blockReadCloser{reader: r}
+}
+
+func (r *blockReadCloser) Read(b []byte) (int, error) {
+	if atomic.LoadInt32(&r.isClosed) != 0 {
+		return 0, io.EOF
+	}
+
+	return r.reader.Read(b)
+}
+
+func (r *blockReadCloser) Close() error {
+	atomic.StoreInt32(&r.isClosed, 1)
+	return nil
+}
+
 func (n *BitcoinNode) completeBlock(ctx context.Context, blockHash *bitcoin.Hash32) {
 	n.Lock()
 	if n.blockRequest != nil && n.blockRequest.Equal(blockHash) {
@@ -752,7 +779,7 @@ func (n *BitcoinNode) handleBlock(ctx context.Context, header *wire.MessageHeade
 		return nil
 	}
 
-	rb := threads.NewReadCloser(rc)
+	rb := newBlockReadCloser(rc)
 
 	n.blockReader = rb
 	n.Unlock()
